@@ -545,6 +545,7 @@ pub fn print_case(run: usize, p: &Problem, dir: &str) -> Value {
             "status": STATUS_NAMES[sol.status as usize], "iterations": sol.iterations,
             "last": {"has": lr.is_some(), "iter": lr.as_ref().and_then(|r| r.first()).and_then(|x| x.parse::<i64>().ok()).unwrap_or(-1),
                      "pcost": fj(tok(1)), "dcost": fj(tok(2)), "pres": fj(tok(4)), "dres": fj(tok(5)),
+                     "gap": fj(tok(3)), "gap_lo": band2(f64::min(s1.info.gap_abs, s1.info.gap_rel)).0, "gap_hi": band2(f64::min(s1.info.gap_abs, s1.info.gap_rel)).1,
                      "infeas": infeas,
                      "pcost_lo": band(sol.obj_val).0, "pcost_hi": band(sol.obj_val).1,
                      "dcost_lo": band(sol.obj_val_dual).0, "dcost_hi": band(sol.obj_val_dual).1,
